@@ -238,7 +238,7 @@ fn cmd_check(args: &[String]) -> i32 {
     let distinct = ORDER_HASHES.lock().ok().and_then(|g| g.as_ref().map(|s| s.len())).unwrap_or(0);
     let hits = reg::hits_total();
     let ev = format!(
-        "{{\"layer\":\"L2 fbthreads (shuttle; cordyceps, diatomic-waker and the slot lock on shuttle atomics)\",\"property_id\":\"{}\",\"seed\":{},\"executions\":{},\"iterations_per_worker\":{},\"workers\":{},\"schedulers\":{:?},\"distinct_event_orders\":{},\"polls\":{},\"pending_results\":{},\"task_parks\":{},\"waker_invocations\":{},\"wakes_overlapping_a_poll\":{},\"stale_wakes\":{},\"wakes_after_collection_dropped\":{},\"waker_clones_by_children\":{},\"collection_dropped_early\":{},\"fresh_task_wakers\":{},\"subjects\":{{\"FuturesUnorderedBounded\":{},\"FuturesUnordered\":{},\"FuturesOrdered\":{},\"MergeBounded\":{},\"MergeUnbounded\":{}}},\"reach_probes\":{{\"budget_exhausted\":{},\"queue_inconsistent\":{},\"vacant_slot_popped\":{},\"group_created\":{},\"group_discarded\":{},\"group_rotated\":{},\"merge_rearmed\":{},\"merge_source_removed\":{}}},\"waker_blocks_audited\":{},\"unsafe_cell_overlaps\":{},\"violations\":[{}],\"violations_counted\":{},\"wall_s\":{:.2}}}",
+        "{{\"layer\":\"L2 fbthreads (shuttle; cordyceps, diatomic-waker and the slot lock on shuttle atomics)\",\"property_id\":\"{}\",\"seed\":{},\"executions\":{},\"iterations_per_worker\":{},\"workers\":{},\"schedulers\":{:?},\"distinct_event_orders\":{},\"polls\":{},\"pending_results\":{},\"task_parks\":{},\"waker_invocations\":{},\"wakes_overlapping_a_poll\":{},\"stale_wakes\":{},\"wakes_after_collection_dropped\":{},\"waker_clones_by_children\":{},\"collection_dropped_early\":{},\"fresh_task_wakers\":{},\"subjects\":{{\"FuturesUnorderedBounded\":{},\"FuturesUnordered\":{},\"FuturesOrdered\":{},\"MergeBounded\":{},\"MergeUnbounded\":{},\"FuturesOrderedBounded\":{},\"buffered_unordered\":{},\"buffered_ordered\":{},\"join_all\":{}}},\"reach_probes\":{{\"budget_exhausted\":{},\"queue_inconsistent\":{},\"vacant_slot_popped\":{},\"group_created\":{},\"group_discarded\":{},\"group_rotated\":{},\"merge_rearmed\":{},\"merge_source_removed\":{}}},\"waker_blocks_audited\":{},\"unsafe_cell_overlaps\":{},\"violations\":[{}],\"violations_counted\":{},\"wall_s\":{:.2}}}",
         prop,
         seed,
         EXECS.load(Ordering::Relaxed),
@@ -261,6 +261,10 @@ fn cmd_check(args: &[String]) -> i32 {
         SUBJECTS[2].load(Ordering::Relaxed),
         SUBJECTS[3].load(Ordering::Relaxed),
         SUBJECTS[4].load(Ordering::Relaxed),
+        SUBJECTS[5].load(Ordering::Relaxed),
+        SUBJECTS[6].load(Ordering::Relaxed),
+        SUBJECTS[7].load(Ordering::Relaxed),
+        SUBJECTS[8].load(Ordering::Relaxed),
         hits[0],
         hits[1],
         hits[2],
